@@ -243,4 +243,151 @@ theorem runLoop_single (g : Graph) (d : Nat → Nat) (hr : Term.Ranked g d) (hsy
   rw [h3]
   exact runLoopO_single g hsym h1 (Term.bound g) s evs r ho hp hw h2
 
+/-! ## the whole step of the only worker -/
+
+theorem continueAfter_single (g : Graph) (d : Nat → Nat) (hr : Term.Ranked g d) (hsym : EdgeSym g) (h1 : g.workers.length = 1)
+    (n : Nat) (phase : Phase) (dir : Dir) (fuel : Nat) (hf : Term.bound g ≤ fuel) (s : State) (ok : Bool) (evs : List Event)
+    (h : PInv g s) (hpcw : (s.wd 0).pc.node? = some n) (hwalk : Term.Walk g d (s.wd 0).path)
+    (hdir : dir = .down → Term.isUp g ((s.wd 0).path.getD ((s.wd 0).path.length - 2) 0) n = false)
+    (hn : s.nodes.length = g.nodes.length) (hc : Term.ClsOK g s) (he : Term.Explored g s) :
+    pcFinal ((resumeTest.continueAfter g 0 n phase dir fuel s ok evs).1.wd 0).pc = true ∧
+      Calm 0 s (resumeTest.continueAfter g 0 n phase dir fuel s ok evs).1 := by
+  obtain ⟨hid, hlast, hlen⟩ := h.testOwn 0 n hpcw
+  have hw : 0 < s.workers.length := lt_of_path_ne_nil s 0 (by intro h0; rw [h0] at hlen; simp at hlen)
+  unfold resumeTest.continueAfter
+  dsimp only
+  split
+  · refine ⟨?_, calm_startTest 0 g s n 0 .main dir⟩
+    show pcFinal ((startTest g s n 0 .main dir).1.wd 0).pc = true
+    rw [startTest_pc g s n 0 .main dir hw]; rfl
+  · have q2 : Qt 0 none s (if (phase == Phase.pre) = true then
+          s.setNd n (fun d => { d with results := d.results ++ (s.wd 0).preResults.drop d.results.length })
+        else s) := by
+      split
+      · refine qt_setNd 0 none s n _ ?_
+        intro d; exact Or.inl rfl
+      · exact Qt.refl _ _ _
+    have l2 : Term.LW 0 Term.DT s (if (phase == Phase.pre) = true then
+          s.setNd n (fun d => { d with results := d.results ++ (s.wd 0).preResults.drop d.results.length })
+        else s) := by
+      split
+      · exact (Term.fr_setNd s n _).lw 0
+      · exact Term.LW.refl 0 s
+    have c2 : Calm 0 s (if (phase == Phase.pre) = true then
+          s.setNd n (fun d => { d with results := d.results ++ (s.wd 0).preResults.drop d.results.length })
+        else s) := by
+      split
+      · exact calm_setNd 0 s n _ (fun _ => rfl)
+      · exact Calm.refl 0 s
+    obtain ⟨hoF, hpF, hlF, hnF, hwF, _⟩ := h.finish hpcw q2
+    have lF := l2.trans ((Term.fr_finishTraverse _ n 0).lw 0)
+    have cF := c2.trans (calm_finishTraverse 0 _ n 0)
+    generalize hsF : finishTraverse (if (phase == Phase.pre) = true then
+          s.setNd n (fun d => { d with results := d.results ++ (s.wd 0).preResults.drop d.results.length })
+        else s) n 0 = sF at hoF hpF hlF hnF hwF lF cF
+    obtain ⟨a, b, c, _⟩ := afterTraverse_ok (vis g sF) (edgeSym_vis g sF hsym) sF 0 n
+      ((s.wd 0).path.getD ((s.wd 0).path.length - 2) 0) dir hwF hlF hnF
+    obtain ⟨k1, k2, _⟩ := Term.afterTraverse_any g d hr hsym sF sF 0 n ((s.wd 0).path.getD ((s.wd 0).path.length - 2) 0) dir
+      hwF hlF (by rw [lF.own]) (by rw [lF.own]; exact hwalk) hdir (D := Term.DT) (fun _ _ => trivial)
+    have cA := cF.trans (calm_afterTraverse 0 (vis g sF) sF 0 n ((s.wd 0).path.getD ((s.wd 0).path.length - 2) 0) dir)
+    generalize afterTraverse (vis g sF) sF 0 n ((s.wd 0).path.getD ((s.wd 0).path.length - 2) 0) dir = r at a b c k1 k2 cA
+    have hhid : ∀ x, x ∈ r.1.hidden → x ∈ sF.hidden := by intro x hx; rw [← a.hidden]; exact hx
+    have ho' : PInvO g r.1 0 := hoF.transfer a.workersLen hhid (fun v hv => by rw [a.others v hv]; exact ⟨rfl, rfl⟩)
+      (fun i => by
+        rcases a.marks i with h' | h' | h'
+        · exact Or.inl h'
+        · exact Or.inr h'
+        · exact absurd h'.1 (by simp))
+    have hp' := pathOK_eff g sF r.1 0 _ _ hhid hpF c
+    have hw' : 0 < r.1.workers.length := by rw [a.workersLen]; exact hwF
+    have hg1 : Term.Good g d 0 r.1 := Term.good_of_loc (lF.toLoc.trans k1) hn hc he k2
+    obtain ⟨s1, e2, fl⟩ := r
+    have loopCase : ∀ evs', pcFinal ((runLoop g 0 fuel s1 evs').1.wd 0).pc = true ∧ Calm 0 s (runLoop g 0 fuel s1 evs').1 := by
+      intro evs'
+      obtain ⟨x1, x2⟩ := runLoop_single g d hr hsym h1 s1 evs' ho' hp' hw' hg1 fuel hf
+      exact ⟨x1, cA.trans x2⟩
+    cases fl with
+    | raise what =>
+      dsimp only
+      refine ⟨?_, cA.trans (calm_setWd 0 s1 0 _ (fun _ => rfl) (fun _ => rfl))⟩
+      rw [wd_setWd_eq s1 0 _ hw']; rfl
+    | cont => exact loopCase _
+    | suspend => exact loopCase _
+    | exit => exact loopCase _
+
+theorem resumeTest_single (g : Graph) (d : Nat → Nat) (hr : Term.Ranked g d) (hsym : EdgeSym g) (h1 : g.workers.length = 1)
+    (s : State) (n : Nat) (phase : Phase) (dir : Dir) (uid : String) (tag wait : Nat) (out : Outcome)
+    (fuel : Nat) (hf : Term.bound g ≤ fuel)
+    (h : PInv g s) (hpcw : (s.wd 0).pc.node? = some n) (hwalk : Term.Walk g d (s.wd 0).path)
+    (hdir : dir = .down → Term.isUp g ((s.wd 0).path.getD ((s.wd 0).path.length - 2) 0) n = false)
+    (hn : s.nodes.length = g.nodes.length) (hc : Term.ClsOK g s) (he : Term.Explored g s) :
+    pcFinal ((resumeTest g s 0 n phase dir uid tag wait out fuel).1.wd 0).pc = true ∧
+      Calm 0 s (resumeTest g s 0 n phase dir uid tag wait out fuel).1 := by
+  rw [resumeTest_eq]
+  obtain ⟨r1, r2, r3⟩ := reportOutcome_frame g s 0 n phase uid wait out
+  have bA : BookOnly s (reportOutcome g s 0 n phase uid wait out).1 :=
+    ⟨by rw [r2], r3, fun v => by unfold State.wd; rw [r2]; exact ⟨rfl, rfl⟩, fun i => by unfold State.nd; rw [r1]⟩
+  have hA := h.bookOnly bA
+  have lA := Term.reportOutcome_lw (D := Term.DT) g s 0 n phase uid wait out
+  have cA : Calm 0 s (reportOutcome g s 0 n phase uid wait out).1 := Calm.quiet r1 r2
+  have hpcA : ((reportOutcome g s 0 n phase uid wait out).1.wd 0).pc.node? = some n := by rw [(bA.wd 0).2]; exact hpcw
+  generalize (reportOutcome g s 0 n phase uid wait out).1 = sa at hA hpcA bA lA cA
+  have gA : Term.Good g d 0 sa := Term.good_of_loc lA.toLoc hn hc he (by rw [lA.own]; exact hwalk)
+  have hwA : 0 < sa.workers.length := by
+    obtain ⟨_, _, hlen⟩ := hA.testOwn 0 n hpcA
+    exact lt_of_path_ne_nil sa 0 (by intro h0; rw [h0] at hlen; simp at hlen)
+  have waitCase : ∀ k, pcFinal ((sa.setWd 0 (fun d => { d with pc := .test n phase dir uid tag k })).wd 0).pc = true ∧
+      Calm 0 s (sa.setWd 0 (fun d => { d with pc := .test n phase dir uid tag k })) := by
+    intro k
+    refine ⟨?_, cA.trans (calm_setWd 0 sa 0 _ (fun _ => rfl) (fun _ => rfl))⟩
+    rw [wd_setWd_eq sa 0 _ hwA]; rfl
+  split
+  · next st0 dur _ =>
+    have bB := recordResult_frame sa 0 n phase (if (phase == Phase.pre) = true then (s.wd 0).preName else (g.node n).name) uid tag st0 dur
+    obtain ⟨b1, b2, _⟩ := Term.recordResult_loc (D := Term.DT) sa 0 n phase (if (phase == Phase.pre) = true then (s.wd 0).preName else (g.node n).name) uid tag st0 dur
+    have cB := calm_recordResult 0 sa 0 n phase (if (phase == Phase.pre) = true then (s.wd 0).preName else (g.node n).name) uid tag st0 dur
+    rw [lA.own] at b2
+    have gB := Term.good_of_loc (g := g) (d := d) b1 gA.nodesLen gA.cls gA.explored (by rw [b2]; exact hwalk)
+    obtain ⟨x1, x2⟩ := continueAfter_single g d hr hsym h1 n phase dir fuel hf _
+      (recordResult sa 0 n phase (if (phase == Phase.pre) = true then (s.wd 0).preName else (g.node n).name) uid tag st0 dur).2
+      (reportOutcome g s 0 n phase uid wait out).2
+      (hA.bookOnly bB) (by rw [(bB.wd 0).2]; exact hpcA) (by rw [b2]; exact hwalk) (by rw [b2]; exact hdir)
+      gB.nodesLen gB.cls gB.explored
+    exact ⟨x1, (cA.trans cB).trans x2⟩
+  · split
+    · exact waitCase _
+    · split
+      · exact waitCase _
+      · obtain ⟨x1, x2⟩ := continueAfter_single g d hr hsym h1 n phase dir fuel hf sa false
+          (reportOutcome g s 0 n phase uid wait out).2 hA hpcA
+          (by rw [lA.own]; exact hwalk) (by rw [lA.own]; exact hdir) gA.nodesLen gA.cls gA.explored
+        exact ⟨x1, cA.trans x2⟩
+
+/-- **The step of the only worker**: from a reachable state (invariants `PInv`, `TInv`; nothing unexplored) a `resume`
+with `fuel ≥ bound g` ends inside a test, at the exit or dead — never in `bounce` or `loop` — unless it was over
+before; no threshold is bumped and the back-off record of the worker stays as it is. -/
+theorem resume_single (g : Graph) (d : Nat → Nat) (hr : Term.Ranked g d) (hsym : EdgeSym g) (h1 : g.workers.length = 1)
+    (s : State) (out : Outcome) (fuel : Nat) (hf : Term.bound g ≤ fuel)
+    (h : PInv g s) (ht : Term.TInv g d s) (he : Term.Explored g s) :
+    pcFinal ((resume g s 0 out fuel).1.wd 0).pc = true ∧ Calm 0 s (resume g s 0 out fuel).1 := by
+  have hws : 0 < s.workers.length := by rw [h.wlen, h1]; exact Nat.one_pos
+  have hg : Term.Good g d 0 s := ⟨ht.nodesLen, ht.cls, he, ht.walk 0⟩
+  have loopCase : (s.wd 0).pc.node? = none → (s.wd 0).pc ≠ .failed → (s.wd 0).pc ≠ .done →
+      pcFinal ((runLoop g 0 fuel s []).1.wd 0).pc = true ∧ Calm 0 s (runLoop g 0 fuel s []).1 := by
+    intro h2 h3 h4
+    refine runLoop_single g d hr hsym h1 s [] (h.toO h2 h3) ?_ hws hg fuel hf
+    rcases h.path 0 hws with h' | h'
+    · exact absurd h'.2 h4
+    · exact h'
+  unfold resume
+  split
+  · next heq => exact loopCase (by rw [heq]; rfl) (by rw [heq]; simp) (by rw [heq]; simp)
+  · next heq => exact loopCase (by rw [heq]; rfl) (by rw [heq]; simp) (by rw [heq]; simp)
+  · next n phase dir uid tag wait heq =>
+    obtain ⟨_, hlast, _⟩ := h.testOwn 0 n (by rw [heq]; rfl)
+    exact resumeTest_single g d hr hsym h1 s n phase dir uid tag wait out fuel hf h (by rw [heq]; rfl) (ht.walk 0)
+      (fun hdn => (ht.dir 0).1 n phase uid tag wait (by rw [heq, hdn]) n hlast) ht.nodesLen ht.cls he
+  · next heq => exact ⟨by rw [heq]; rfl, Calm.refl 0 s⟩
+  · next heq => exact ⟨by rw [heq]; rfl, Calm.refl 0 s⟩
+
 end I2N.Trav.Global
